@@ -6,7 +6,7 @@ CONSTANTS
   Fix7 = TRUE
   Fix8 = TRUE
   OneShotLate = FALSE
-  Masks <- AllMasks
+  Masks <- RMasks
   OpKinds <- OpsClose
   MaxOps = 1
   MaxPass = 2
